@@ -212,16 +212,21 @@ class M(Model):
             if not np.array_equal(g == v, g2 == v):
                 out.append((f"illegal move changed the agent's {name} cells",
                             f"agent {k}: {_cells(g == v)} -> {_cells(g2 == v)}"))
+        # "the episode continues": the ignored move must not end the episode by itself - LAST is only acceptable
+        # when the resulting state is terminal by the documented rules (everybody connected/blocked, time limit).
+        # (The converse - MID although the rules say LAST - is C09/C11's business, not an effect of the move.)
         exp_last, _ = self._expected_last(s2)
-        if (int(ts2.step_type) == LAST) != exp_last:
-            out.append(("step type after an ignored illegal move is not the one of the resulting state",
-                        f"step_type={int(ts2.step_type)} expected last={exp_last}"))
+        if int(ts2.step_type) == LAST and not exp_last:
+            out.append(("ignored illegal move ended the episode",
+                        f"step_type={int(ts2.step_type)} although the resulting state is not terminal"))
+        # nothing is connected on its behalf: the offender must not be credited with a connection (the exact
+        # per-step penalty is the reward rule of C09, not an effect of the ignored move)
         rew = np.asarray(ts2.reward, np.float64).reshape(-1)
-        if rew.shape[0] == self.A:
-            was_conn = bool((pos[k] == self._tab(s)[1][k]).all())
-            want = 0.0 if was_conn else self.r_step
-            if abs(rew[k] - want) > 1e-6:
-                out.append(("agent whose illegal move was ignored does not get the plain timestep reward", f"agent {k}: reward {rew[k]} expected {want}"))
+        if rew.shape[0] == self.A and self.r_conn > 0:
+            plain = max(0.0, self.r_step)
+            if rew[k] > plain + 0.5 * self.r_conn:
+                out.append(("agent whose illegal move was ignored is rewarded like a connection",
+                            f"agent {k}: reward {rew[k]}"))
         return out
 
     # ------------------------------------------------------------------------------------ C06
@@ -267,9 +272,7 @@ class M(Model):
                 v = int(g[t[0], t[1]])
                 if v not in (3 + 3 * k, 2 + 3 * k):
                     out.append(("an agent's target cell is occupied by another route", f"agent {k}: target {t.tolist()} holds {v}"))
-        owned = sum(int(((g == v)).sum()) for k in range(self.A) for v in _pv(k))
-        if owned != int((g != 0).sum()):
-            out.append(("grid holds values that belong to no agent", f"values {np.unique(g).tolist()}"))
+        # (values outside the encoding are a C07 matter, not a hard constraint of the routing problem)
         return out
 
     def complete(self, s, ts):
@@ -294,8 +297,8 @@ class M(Model):
         g = np.asarray(s.grid)
         if g.shape != (self.G, self.G):
             return [("grid shape", str(g.shape))]
-        if not np.array_equal(ids, np.arange(self.A)):
-            out.append(("agent ids are not 0..n-1", str(ids.tolist())))
+        if len(set(ids.tolist())) != self.A:  # "id: unique number representing only this agent"
+            out.append(("agent ids are not unique", str(ids.tolist())))
         if g.min() < 0 or g.max() > 3 * self.A:
             out.append(("grid value outside the encoding", f"min {g.min()} max {g.max()}"))
         for name, tab in (("position", pos), ("target", tgt), ("start", start)):
@@ -330,8 +333,8 @@ class M(Model):
             pg = np.asarray(prev.grid)
             if not np.array_equal(ptgt, tgt) or not np.array_equal(pstart, start):
                 out.append(("start/target of an agent changed during the episode", ""))
-            if int(s.step_count) != int(prev.step_count) + 1:
-                out.append(("step_count not incremented", f"{int(prev.step_count)} -> {int(s.step_count)}"))
+            # (step_count, "one cell per step", "a connected agent stays" are transition rules - C09 -; what is
+            # asserted below is the conservation of occupancy named in the C07 statement)
             lost = (pg != 0) & (g == 0)
             if lost.any():
                 out.append(("an occupied cell became empty", f"cells {_cells(lost)}"))
@@ -339,14 +342,10 @@ class M(Model):
                 pv, hv, tv = _pv(k)
                 d = int(np.abs(pos[k] - ppos[k]).sum())
                 n_prev, n_now = int((pg == pv).sum()), int((g == pv).sum())
-                if d > 1:
-                    out.append(("agent moved more than one cell", f"agent {k}: {ppos[k].tolist()} -> {pos[k].tolist()}"))
-                elif d == 1:
+                if d >= 1:
                     if int(g[ppos[k][0], ppos[k][1]]) != pv or n_now != n_prev + 1:
                         out.append(("moving head did not leave exactly one path cell behind",
                                     f"agent {k}: old head cell holds {int(g[ppos[k][0], ppos[k][1]])}, path cells {n_prev} -> {n_now}"))
-                    if (ppos[k] == ptgt[k]).all():
-                        out.append(("connected agent moved", f"agent {k}"))
                 else:
                     if n_now != n_prev:
                         out.append(("path cells changed although the agent did not move", f"agent {k}: {n_prev} -> {n_now}"))
@@ -403,10 +402,9 @@ class M(Model):
         out = []
         pos, tgt, start, ids = self._tab(s0)
         g = np.asarray(s0.grid)
-        if int(s0.step_count) != 0:
-            out.append(("initial step_count != 0", str(int(s0.step_count))))
-        if not np.array_equal(ids, np.arange(self.A)):
-            out.append(("agent ids are not 0..n-1", str(ids.tolist())))
+        # (step_count is not an invariant of the generated board: not asserted under C10)
+        if len(set(ids.tolist())) != self.A:  # "id: unique number representing only this agent"
+            out.append(("agent ids are not unique", str(ids.tolist())))
         for name, tab in (("start", start), ("target", tgt), ("position", pos)):
             for k in range(self.A):
                 if not self._inside(tab[k]):
@@ -435,39 +433,45 @@ class M(Model):
 
     def _validate_probe(self, d):
         """RandomWalkGenerator: 'guaranteed to be solvable' - the solved board returned by generate_board must
-        encode one simple route per agent, pairwise disjoint, from the start to the returned target, and
-        playing those routes in the real environment must connect every agent."""
+        encode one simple route per agent, pairwise disjoint (one value per cell), joining the start and the
+        target returned with it, and playing those routes in the real environment must connect every agent.
+        Which of an agent's three values marks which cell of the *solved* board is not documented, so only the
+        set of cells carrying any of the agent's values is used; the (board, agents, grid) triple is validated
+        on its own, without assuming how `__call__` derives the board key from the reset key."""
         s0 = d["state"]
         out = self._validate_state(s0)
-        pos, tgt, start, _ = self._tab(s0)
         solved = np.asarray(d["solved"]).astype(np.int64)
         ga = d["gb_agents"]
+        tgt = np.asarray(ga.target, np.int64).reshape(self.A, 2)
+        start = np.asarray(ga.start, np.int64).reshape(self.A, 2)
+        # the instance the solved board belongs to: the reset state when it is the same board (it is today),
+        # otherwise the triple returned by generate_board itself
+        s_gb = s0.replace(grid=np.asarray(d["gb_grid"]), agents=ga)
         same = (np.array_equal(np.asarray(d["gb_grid"]), np.asarray(s0.grid))
-                and np.array_equal(np.asarray(ga.target).reshape(self.A, 2), tgt)
-                and np.array_equal(np.asarray(ga.start).reshape(self.A, 2), start))
+                and np.array_equal(tgt, self._tab(s0)[1]) and np.array_equal(start, self._tab(s0)[2]))
         if not same:
-            return out + [("probe: generate_board(board key) is not the board of reset(key) (harness assumption broken)", "")]
+            out += self._validate_state(s_gb)
+        if out:
+            return out
         if solved.shape != (self.G, self.G) or solved.min() < 0 or solved.max() > 3 * self.A:
             return out + [("solved board has values outside the encoding", f"{solved.tolist()}")]
         routes = []
         for k in range(self.A):
-            pv, hv, tv = _pv(k)
-            heads, targets = _cells(solved == hv), _cells(solved == tv)
             st_, t = tuple(start[k].tolist()), tuple(tgt[k].tolist())
-            if heads != [st_] or targets != [t]:
-                out.append(("solved board: head/target cells differ from the returned start/target",
-                            f"agent {k}: heads {heads} start {st_}; targets {targets} target {t}; board {solved.tolist()}"))
+            cells = sorted(set(_cells(np.isin(solved, _pv(k)))))
+            if st_ not in cells or t not in cells:
+                out.append(("solved board: an agent's start/target cell does not carry one of its values",
+                            f"agent {k}: start {st_} target {t} cells {cells}; board {solved.tolist()}"))
                 routes.append(None)
                 continue
-            cells = _cells(solved == pv) + [st_, t]
             r = hamiltonian_path(cells, st_, t)
             if r is None:
                 out.append(("solved board: an agent's cells are not a simple path from start to target",
-                            f"agent {k}: cells {sorted(cells)}; board {solved.tolist()}"))
+                            f"agent {k}: cells {cells}; board {solved.tolist()}"))
             routes.append(r if isinstance(r, list) else None)
         if out or any(r is None for r in routes):
             return out
-        return out + self._replay_routes(s0, routes)
+        return out + self._replay_routes(s_gb, routes)
 
     def _replay_routes(self, s0, routes):
         import jax
@@ -491,11 +495,7 @@ class M(Model):
                     out.append(("replaying the generator's solution: an agent could not follow its route",
                                 f"agent {k} step {t}: at {p[k].tolist()} expected {want}; routes {routes}"))
                     return out
-            is_last = int(jax.device_get(ts.step_type)) == LAST
-            if is_last != (t == n - 1) and n <= self.T:
-                out.append(("replaying the generator's solution: episode end does not coincide with the last connection",
-                            f"step {t} of {n}: step_type {int(jax.device_get(ts.step_type))}"))
-                return out
+            # (when exactly the episode is flagged LAST is C03/C09's business, not an instance invariant)
         hs = jax.device_get(state)
         if not self._connected(hs).all():
             out.append(("replaying the generator's solution does not connect every agent", f"routes {routes}"))
